@@ -25,7 +25,7 @@ pub fn def() -> PropDef {
 fn streams(t: Tier) -> Vec<StreamDef> {
     let n = t.n(65536, 65536, 50, 65536);
     let ex = t != Tier::Miri;
-    vec![st("message_type", n, ex), st("error_type", n, ex), st("proxy_type", n, ex), st("result_code", n, ex), st("attribute_type", n, ex), st("named_values", 14 + 9 + 6 + 8 + 12, true)]
+    vec![st("message_type", n, ex), st("error_type", n, ex), st("proxy_type", n, ex), st("result_code", n, ex), st("attribute_type", n, ex), st("named_values", 14 + 9 + 6 + 8 + 12, true), st("deep_position", t.n(120, 1200, 0, 120), false)]
 }
 
 fn floors(t: Tier) -> Vec<(String, u64)> {
@@ -46,6 +46,7 @@ fn floors(t: Tier) -> Vec<(String, u64)> {
         ("attribute_type.rejected".into(), 65497),
         ("named.checked".into(), 49),
         ("entry_points.compared".into(), 3 * 3 * 65536 - 10),
+        ("deep_position.checked".into(), 100),
     ]
 }
 
@@ -317,6 +318,40 @@ fn run(ctx: &mut Ctx) {
                 (Out::Ok(a), false) => ctx.violate("C16:attribute_type:unassigned-accepted", format!("unassigned attribute type {} accepted as {:?}", x, a), w_input(&msg, Some(SOpts::STRICT))),
                 (Out::Err(e), true) => ctx.violate("C16:attribute_type:assigned-rejected", format!("assigned attribute type {} with a valid payload rejected: {}", x, errs_str(e)), w_input(&msg, Some(SOpts::STRICT))),
                 (other, _) => ctx.violate(format!("C16:attribute_type:{}", other.class()), format!("attribute type {}: {}", x, out_str(other)), w_input(&msg, Some(SOpts::STRICT))),
+            }
+        }
+        "deep_position" => {
+            // the same field, but the record sits behind thousands of other records in a bare AVP
+            // list (longer than any single message can be): position must not matter
+            let n = *ctx.rng.pick(&[8_191usize, 8_192, 10_921, 10_922, 10_923, 12_000]);
+            let (field, attr, table): (&str, u16, &[(u16, &str)]) = match ctx.idx % 3 {
+                0 => ("message_type", 0, &MESSAGE_TYPES),
+                1 => ("error_type", 1, &ERROR_TYPES),
+                _ => ("proxy_type", 29, &PROXY_AUTHEN_TYPES),
+            };
+            let x = match ctx.rng.below(3) {
+                0 => ctx.rng.pick(table).0,
+                1 => *ctx.rng.pick(&[5u16, 13, 17, 9, 6, 20, 255, 65535]),
+                _ => ctx.rng.u16b(),
+            };
+            let payload = if attr == 1 { vec![0, 2, (x >> 8) as u8, x as u8] } else { vec![(x >> 8) as u8, x as u8] };
+            let mut list = Vec::with_capacity(n * 6 + 16);
+            for _ in 0..n {
+                list.extend_from_slice(&[0x01, 0x06, 0, 0, 0, 39]);
+            }
+            list.extend_from_slice(&wire::raw_record(attr, false, 0, &payload, true));
+            ctx.rep.case(format!("deep:{}:{}:{}", field, x, n).as_bytes(), true);
+            ctx.rep.bucket("deep_position.checked");
+            let assigned = table.iter().any(|(c, _)| *c == x);
+            let run = exec::decode_avps(&list, Rk::Slice);
+            let wit = J::obj(vec![("field", J::s(field)), ("code", J::U(x as u64)), ("records_in_front", J::U(n as u64)), ("last_record_hex", J::hex(&list[n * 6..]))]);
+            match &run.out {
+                Out::Ok(l) if l.len() == n + 1 => match (&l[n], assigned) {
+                    (Ok(_), true) | (Err(_), false) => {}
+                    (got, _) => ctx.violate(format!("C16:{}:position-dependent", field), format!("code {} (assigned: {}) behind {} other records decodes as {:?}", x, assigned, n, got), wit),
+                },
+                Out::Ok(l) => ctx.violate(format!("C16:{}:position-dependent:record-lost", field), format!("a list of {} records decodes to {} results: the record carrying code {} was never examined", n + 1, l.len(), x), wit),
+                other => ctx.violate(format!("C16:{}:deep:{}", field, other.class()), out_str(other), wit),
             }
         }
         "named_values" => {
